@@ -337,3 +337,10 @@ package dagsync
 //@   property C15
 //@   requires subOK(s) && !held(s.handlersMutex)
 //@   ensures !has(s.handlers, peerID)
+
+// The constructor establishes the subscriber invariant every entry point requires.
+//@ func NewSubscriber
+//@   property C15
+//@   requires host != nil
+//@   ensures result1 == nil ==> subOK(result0)
+//@   ensures result1 != nil ==> result0 == nil
